@@ -115,7 +115,7 @@ def replay_history(job):
                 acc['zz'] = 'U'               # an accessor for an id nobody registers
                 ns = {'SYNTAX_DEFAULTS': arg}
                 ns.update({a: ConfColor(i) for a, i in acc.items()})
-                cls = type('Pal%d' % n, (Palette,), ns)
+                cls = type('Pal', (Palette,), ns)        # distinct classes that share one qualified name (as classes made by a factory do)
                 pals.append((cls, acc))
                 cls(colors_conf=conf)
         except Exception as e:
